@@ -513,6 +513,19 @@ mod routing {
             let vals: Vec<T> = v.iter().map(|x| T::f(*x)).collect();
             m.set_params(DVector::from_vec(vals.clone())).map_err(|e| format!("set_params #{} failed: {:?}", h, e))?;
             verify(&m, d, &vals).map_err(|e| format!("after set_params #{} of the history {:?}: {}", h, history, e))?;
+            // a vector of the wrong length is not "set": whatever the call answers, the parameters in effect and everything
+            // computed from them stay those of the last accepted vector
+            if h == 0 || h + 1 == history.len() {
+                for bad in [p + 1, p - 1, 0, 2 * p] {
+                    if bad == p {
+                        continue;
+                    }
+                    if m.set_params(DVector::from_element(bad, T::f(9.5))).is_ok() {
+                        return Err(format!("set_params with {} values on a model with {} parameters returned Ok", bad, p));
+                    }
+                    verify(&m, d, &vals).map_err(|e| format!("after a REJECTED set_params ({} values) following #{} of the history {:?}: {}", bad, h, history, e))?;
+                }
+            }
         }
         Ok(())
     }
